@@ -705,6 +705,11 @@ func runC08(r *SeqRun) {
 		b, _ := json.Marshal(scheds)
 		os.WriteFile(schedFile, b, 0o644)
 		r.GenStates, r.NGen = nstates, len(scheds)
+		if r.Tier == "quick" { // the generator run is the bounded design-level run of the quick tier (same constants as conc_q.cfg)
+			r.States += nstates
+			r.Design = append(r.Design, map[string]any{"module": "ConcGen.tla (KlevConc.tla)", "cfg": "concgen_q.cfg", "distinct": nstates,
+				"note": "KlevConc.tla exhaustive with QuiescentOK, HeadFlagOK and the linearization-point assertions; the same run emits one shortest schedule per distinct state for the replay"})
+		}
 	}
 	var wg sync.WaitGroup
 	for s := 0; s < nshards; s++ {
